@@ -21,7 +21,7 @@ COMPONENTS_STUB = ["UDP socket (SimSocket) incl. IPV6_PKTINFO with multicast des
                    "event loop clock (virtual)"]
 ASSUMPTIONS = ["reaction table written from RFC 7252 section 4 and RFC 7967, independent of the code",
                "CON requests addressed to a multicast group are not generated (peer misbehaviour the statement does not cover)"]
-EXPECTED_PROBES = ["token_reused_after_completed_exchange", "duplicated_request", "ping", "piggyback", "empty_ack_then_separate", "handler_at_delay_minus_eps", "handler_at_delay_plus_eps",
+EXPECTED_PROBES = ["application_callback_raised_on_matching_response", "token_reused_after_completed_exchange", "duplicated_request", "ping", "piggyback", "empty_ack_then_separate", "handler_at_delay_minus_eps", "handler_at_delay_plus_eps",
                    "matched_con_response", "unmatched_con_response_unicast", "unmatched_con_response_multicast",
                    "no_response_suppressed", "misfit", "request_to_multicast", "reliable_to_multicast", "boundary_message_id", "ipv4_mapped", "peer_request_under_endpoints_next_token", "crowd_of_pending_requests", "forward_proxy"]
 
